@@ -4,8 +4,8 @@ the worktree of one seeded change; print which stable tests no longer pass.
 Development helper only."""
 import json, os, subprocess, sys, xml.etree.ElementTree as ET
 sid = sys.argv[1]
-d = f'/tmp/seed/{sid}'
-wt = sys.argv[2] if len(sys.argv) > 2 else f'{d}/wt'
+d = sys.argv[2] if len(sys.argv) > 2 else f'/tmp/seed/{sid}'
+wt = f'{d}/wt'
 base = json.load(open('/root/.vp/BASELINE.json'))
 stable = set(base['stable_pass'])
 files = sorted({s.split('::')[0].replace('.', '/') + '.py' for s in stable})
